@@ -21,6 +21,52 @@ def alphabet(fs, a):
                  z3.And(fs.is_kind('Header'), fs.chan('Header') == a, sym(f"{fs.name}#{fs.FV.index('Header')}.2.boxed.2", BV64) == 0))
 
 
+def scripted_histories(ctx, prog, ex):
+    """histories longer than the BMC bound, with the frame kinds fixed and every field symbolic: state a consumer leaves behind (anything the
+    implementation remembers about its last delivery) must die with it - a delivery naming a consumer that has been cancelled, by either
+    side, is refused like one for a tag never seen, and the cancelled consumer's queue stays closed"""
+    f = prog.method('ConnectionState', 'process')
+    a = z3.BitVec('chan_a', 16)
+    for name, cancel in (('server-cancel', 'Cancel'), ('client-cancel', 'CancelOk')):
+        st, w = build_steady(prog, [('A', a, {'consumers': 1})])
+        t0 = w.slots['A']['consumers']['c0'][0]
+        dn = prog.types.fields('amq_protocol::protocol::basic::Deliver')
+        script = ['Deliver', 'Header', cancel, 'Deliver', 'Header']
+        front = [(st, [])]
+        for i, kind in enumerate(script):
+            nxt = []
+            for (s0, evs) in front:
+                fs = FrameSym(prog, f's{i}')
+                if kind == 'Header':
+                    s0.pc += [fs.is_kind('Header'), fs.chan('Header') == a, sym(f"{fs.name}#{fs.FV.index('Header')}.2.boxed.2", BV64) == 0]
+                else:
+                    s0.pc += [fs.is_method('Basic', kind), fs.chan('Method') == a]
+                    tag_field = dn.index('consumer_tag') if kind == 'Deliver' else 0
+                    s0.pc.append(fs.method_field('Basic', kind, tag_field, StrSort) == t0.s)
+                w0 = s0.roots['w']
+                for (s1, rv) in ex.run(s0, f, [Ref(w0.state), Ref(w0.inner), fs.value]):
+                    inf = s1.roots['w'].slots['A']
+                    inf['reply'].queue = []      # the caller takes replies as they arrive
+                    ev2 = evs + [(fs, rv)]
+                    if isinstance(rv, Panic) or err_name(prog, rv) != 'Ok' or i == len(script) - 1:
+                        w1 = s1.roots['w']
+                        kinds = [consumer_msg_kind(prog, m_) for m_ in queue_msgs(w1.slots['A']['consumers']['c0'][1])]
+                        res = [('PANIC' if isinstance(r_, Panic) else err_name(prog, r_)) for (_, r_) in ev2]
+                        term = 'ServerCancelled' if cancel == 'Cancel' else 'ClientCancelled'
+                        ok = res == ['Ok', 'Ok', 'Ok', 'Ok', 'UnknownConsumerTag'] and kinds == ['Delivery', term]
+                        claim = z3.BoolVal(ok)
+                        m = ctx.decide(f"c11.scripted[{name}]#{len(ev2)}", s1.pc, claim, group='delivery, cancel (by either side), then another delivery for the same tag: refused with UnknownConsumerTag, the cancelled consumer gets nothing after its terminal message',
+                                       sample={'results': res, 'queue': kinds})
+                        if m is not None and not any(isinstance(r_, Panic) for (_, r_) in ev2):
+                            report_io(ctx, prog, 'consumer-queue', f"scripted history {script[:len(ev2)]}: results {res}, consumer queue {kinds}", s1, w1, [err_name(prog, r_) for (_, r_) in ev2], s1.pc, claim,
+                                      [fs_ for (fs_, _) in ev2], events=evlist(ev2))
+                        elif m is not None:
+                            ctx.inconclusive.append(f"C11 scripted history: panic path {res}")
+                    else:
+                        nxt.append((s1, ev2))
+            front = nxt
+
+
 def evlist(evs):
     out = []
     for (fs, _) in evs:
@@ -146,6 +192,7 @@ def body(ctx):
                 report_io(ctx, prog, 'consumer-queue', f"history of {len(evs)} frames: consumer queue {kinds} breaks the claim", s, w, res, s.pc, claim, [fs for (fs, _) in evs], events=evlist(evs))
         elif hi % 211 == ctx.seed % 211 and len(VAL.cases) < ctx.q(3, 10) and not any(isinstance(rv, Panic) for (_, rv) in evs):
             VAL.add(s, w, res, s.pc, [fs for (fs, _) in evs], events=evlist(evs), label=f"history#{hi}")
+    scripted_histories(ctx, prog, ex)
     ctx.extra['process_paths'] = total
     # a server Connection.Close with consumers on several channels: every one of them is told (one step, two channels)
     import c08
